@@ -376,10 +376,30 @@ func (x *c27Case) dcid(kind string, ptype packetType) []byte {
 	if (kind == "srv" || ptype != packetTypeInitial) && len(loc) > 1 {
 		return loc[1].cid
 	}
-	if len(loc) > 0 && (loc[0].seq == -1 || len(loc) == 1) {
+	if len(loc) > 0 {
 		return loc[0].cid
 	}
 	return x.connDCID
+}
+
+// routable reports whether delivering b cannot start a SECOND connection: once the
+// connection exists, the datagram must be addressed to one of its current connection IDs
+// (the transient client-chosen ID is retired when the first Handshake packet is processed;
+// a later Initial for it is a new connection attempt, which this one-connection rig avoids).
+func (x *c27Case) routable(b []byte) bool {
+	if x.conn == nil {
+		return true
+	}
+	dst, ok := dstConnIDForDatagram(b)
+	if !ok {
+		return true
+	}
+	for _, l := range x.conn.connIDState.local {
+		if bytes.Equal(l.cid, dst) {
+			return true
+		}
+	}
+	return false
 }
 
 func (x *c27Case) initialPacket(kind string, ack bool) *testPacket {
@@ -522,12 +542,12 @@ func (x *c27Case) act(f []string) bool {
 		}
 		x.deliver(x.padTo(b, arg(1)), c27AddrA, false)
 	case "dup":
-		if x.last == nil {
+		if x.last == nil || !x.routable(x.last) {
 			return false
 		}
 		x.deliver(x.last, c27AddrA, x.lastHS)
 	case "trunc":
-		if x.lastInit == nil {
+		if x.lastInit == nil || !x.routable(x.lastInit) {
 			return false
 		}
 		n := arg(1)
@@ -578,7 +598,7 @@ func (x *c27Case) act(f []string) bool {
 		}
 		x.deliver(b, c27AddrA, false)
 	case "spoof": // the last client datagram, from another source address
-		if x.lastInit == nil {
+		if x.lastInit == nil || !x.routable(x.lastInit) {
 			return false
 		}
 		x.deliver(x.padTo(append([]byte(nil), x.lastInit...), arg(1)), c27AddrB, false)
